@@ -1010,7 +1010,15 @@ def sp_implies(eng, st, e):
     if s2 is None:
         yield st, vbool(True)
         return
-    b = truth(eng.spec(e.args[1], s2, dict(st.env), modname=eng.modname(st)))
+    saved = eng.undef
+    eng.undef = []
+    try:
+        b = truth(eng.spec(e.args[1], s2, dict(st.env), modname=eng.modname(st)))
+        ub = eng.undef
+    finally:
+        eng.undef = saved
+    for u in ub:
+        eng.undef.append(z3.And(a, u))
     yield st, vbool(z3.Implies(a, b))
 
 
@@ -1499,6 +1507,10 @@ def _b64encode(eng, st, args, kwargs, line):
 @lib('base64.b64decode')
 def _b64decode(eng, st, args, kwargs, line):
     v, = args
+    if v.ty.kind == 'any':
+        for s1, u in eng.split_any(st, v):
+            yield from _b64decode(eng, s1, [u], kwargs, line)
+        return
     if v.ty.kind not in ('str', 'bytes'):
         if st.spec:
             yield st, R('TypeError', line)
@@ -1532,9 +1544,14 @@ def loads_axioms(s):
 
 @lib('json.loads')
 def _json_loads(eng, st, args, kwargs, line):
-    v, = args
+    v = args[0]
+    if v.ty.kind == 'any':
+        for s1, u in eng.split_any(st, v):
+            yield from _json_loads(eng, s1, [u], kwargs, line)
+        return
     if v.ty.kind != 'str':
-        raise core.EngineError('json.loads of %r' % (v.ty,))
+        yield st, R('TypeError', line)
+        return
     for ax in loads_axioms(v.t):
         eng.fact(st, ax)
     s1 = eng.assume(st, json_rec(v.t))
@@ -1553,7 +1570,20 @@ def _json_loads(eng, st, args, kwargs, line):
 @lib('json.dumps')
 def _json_dumps(eng, st, args, kwargs, line):
     v = args[0]
-    compact = 'separators' in kwargs
+    compact = False
+    if 'separators' in kwargs:
+        sep = kwargs['separators']
+        ok = sep.ty.kind == 'tup' and len(sep.t) == 2 and all(
+            x.ty.kind == 'str' and z3.is_string_value(z3.simplify(x.t)) for x in sep.t)
+        if ok and [z3.simplify(x.t).as_string() for x in sep.t] == [',', ':']:
+            compact = True
+        elif ok and [z3.simplify(x.t).as_string() for x in sep.t] == [', ', ': ']:
+            compact = False
+        else:
+            raise core.EngineError('json.dumps separators at line %d' % line)
+    for k in kwargs:
+        if k != 'separators':
+            raise core.EngineError('json.dumps keyword %s at line %d' % (k, line))
     if v.ty.kind == 'any':
         t = v.t
     elif v.ty.kind == 'rec':
